@@ -132,13 +132,53 @@ Definition put (nt : net) (w key : nat) : net * bool :=
 Definition get_finds (nt : net) (r key : nat) : bool :=
   existsb (fun c => mem key (n_store (get nt c))) (union (responders nt r false (Some key)) (self_visit nt r false (Some key))).
 
+(* ---- the same for signed announcements: get_signed_peers / announce_signed_peer lookups run over the
+   signed-peers tables (seeds, replies); their responders enter both tables as for every lookup ---- *)
+Definition expand_s (nt : net) (v : list nat) : list nat :=
+  fold_left (fun acc c => if responds nt c then union acc (n_signed (get nt c)) else acc) v v.
+Definition seeds_s (nt : net) (j key : nat) : list nat :=
+  let nd := get nt j in
+  let c := union (n_signed nd) (cache_get key (n_cache nd)) in
+  if (length c <? length (n_boots nd)) || match n_main nd with [] => true | _ => false end
+  then union c (n_boots nd) else c.
+Definition queried_s (nt : net) (j key : nat) : list nat := iter (2 + length nt) (expand_s nt) (seeds_s nt j key).
+Definition responders_s (nt : net) (j key : nat) : list nat :=
+  filter (fun c => responds nt c && negb (Nat.eqb c j)) (queried_s nt j key).
+Definition self_visit_s (nt : net) (j key : nat) : list nat :=
+  if responds nt j && mem j (queried_s nt j key) then [j] else [].
+Definition lookup_s (nt : net) (j key : nat) : net :=
+  let rs0 := responders_s nt j key in
+  let all := union rs0 (self_visit_s nt j key) in
+  let rs := filter (fun c => negb (mem key (n_store (get nt c)))) rs0 in
+  map (fun p =>
+         let '(i, nd) := p in
+         if Nat.eqb i j
+         then let nd' := set_tables nd (union (n_main nd) rs) (union (n_signed nd) rs) in
+              match all with _ :: _ => set_cache nd' (cache_put key all (n_cache nd)) | [] => nd' end
+         else nd)
+      (combine (seq 0 (length nt)) nt).
+Definition put_s (nt : net) (w key : nat) : net * bool :=
+  let targets := union (responders_s nt w key) (self_visit_s nt w key) in
+  let nt1 := lookup_s nt w key in
+  (map (fun p => let '(i, nd) := p in
+                 if mem i targets
+                 then {| n_alive := n_alive nd; n_server := n_server nd; n_boots := n_boots nd; n_main := n_main nd;
+                         n_signed := n_signed nd; n_store := add1 key (n_store nd); n_cache := n_cache nd |}
+                 else nd) (combine (seq 0 (length nt1)) nt1),
+   match targets with [] => false | _ => true end).
+Definition get_finds_s (nt : net) (r key : nat) : bool :=
+  existsb (fun c => mem key (n_store (get nt c))) (union (responders_s nt r key) (self_visit_s nt r key)).
+
 Inductive nevent :=
 | EJoin (server : bool) (boots : list nat)
 | EDead
 | ELookup (j : nat) (find : bool)
 | ECrash (j : nat)
 | EPut (w key : nat)
-| EGet (r key : nat).
+| EGet (r key : nat)
+| EPutS (w key : nat)          (* announce_signed_peer *)
+| EGetS (r key : nat)          (* get_signed_peers *)
+| EPutGet (r key : nat).       (* a put of the key and, in the same instant, a get of it on the same node: the get joins the put's lookup *)
 
 Definition nstep (nt : net) (e : nevent) : net :=
   match e with
@@ -148,4 +188,7 @@ Definition nstep (nt : net) (e : nevent) : net :=
   | ECrash j => crash nt j
   | EPut w k => if n_alive (get nt w) then fst (put nt w k) else nt
   | EGet r k => if n_alive (get nt r) then lookup nt r false (Some k) else nt
+  | EPutS w k => if n_alive (get nt w) then fst (put_s nt w k) else nt
+  | EGetS r k => if n_alive (get nt r) then lookup_s nt r k else nt
+  | EPutGet r k => if n_alive (get nt r) then fst (put nt r k) else nt
   end.
